@@ -2,6 +2,7 @@
 
 from __future__ import annotations
 
+from copy import deepcopy
 from typing import TYPE_CHECKING, Any, Generic, Literal, TypeVar
 
 import numpy as np
@@ -170,6 +171,9 @@ class ExchangeMove(
                 context._deleted_atoms += context.atoms[indices]
                 context.particle_delta -= 1
 
+                if context._deleted_constraints is None:
+                    context._deleted_constraints = deepcopy(context.atoms.constraints)
+
                 del context.atoms[indices]
                 return self.register_success()
 
@@ -326,6 +330,9 @@ class CompositeExchangeMove(CompositeMove[ExchangeMove]):
             context._deleted_indices = deleted_indices
             context._deleted_atoms += context.atoms[deleted_indices]
             context.particle_delta -= len(np.unique(deleted_labels))
+
+            if context._deleted_constraints is None:
+                context._deleted_constraints = deepcopy(context.atoms.constraints)
 
             del context.atoms[deleted_indices]
 
